@@ -110,3 +110,38 @@ def _v12(repo, mod):
         st = parent(st)
     ind = " " * st.col_offset
     return replace_node(mod, st, f"{norm(st)}\n{ind}self._created.difference_update([e for e in self._created if e.startswith(self._abspath(p) + os.sep)])")
+
+
+@variant("C29", "keyword-arguments-by-common-names", FS, "C29.args", "keywords resolved through the list of common names only (the repaired defect)")
+def _v30(repo, mod):
+    fn = repo.func(FS, "FilesystemIsolation._get_arg")
+    s = find_stmt(fn, lambda s: isinstance(s, ast.If) and "len(names)" in norm(s.test))
+    return delete_stmt(mod, s)
+
+
+@variant("C29", "destination-index-off-by-one", FS, "C29.args", "shutil.move tests and records its source as the destination")
+def _v31(repo, mod):
+    fn = repo.func(FS, "FilesystemIsolation._initialize_patches")
+    d = find_node(fn, lambda n: isinstance(n, ast.Dict) and len(n.keys) == 2 and all(isinstance(k, ast.Constant) for k in n.keys) and {k.value for k in n.keys} == {"record_dst_idx", "forget_arg_idx"})
+    return replace_node(mod, d, '{"forget_arg_idx": 0, "record_dst_idx": 0}')
+
+
+@variant("C29", "relative-paths-through-the-text-cache", FS, "C29.cwd", "relative names normalised through the cache without the working directory (the repaired defect)")
+def _v32(repo, mod):
+    fn = repo.func(FS, "FilesystemIsolation._abspath")
+    s = find_stmt(fn, lambda s: isinstance(s, ast.If) and "isabs" in norm(s.test))
+    return delete_stmt(mod, s)
+
+
+@variant("C29", "working-directory-cached-too", FS, "C29.cwd", "the anchoring itself is memoised")
+def _v33(repo, mod):
+    fn = repo.func(FS, "FilesystemIsolation._abspath")
+    s = find_stmt(fn, lambda s: isinstance(s, ast.If) and "isabs" in norm(s.test))
+    return replace_node(mod, s, "text = _anchor(text)").replace("class FilesystemIsolation(", "@lru_cache(maxsize=64)\ndef _anchor(text):\n    return text if os.path.isabs(text) else os.path.join(os.getcwd(), text)\n\n\nclass FilesystemIsolation(", 1)
+
+
+@variant("C29", "twin-arguments-bound-by-signature", FS, None, "binding through inspect.signature().bind_partial stays silent")
+def _v34(repo, mod):
+    fn = repo.func(FS, "FilesystemIsolation._get_arg")
+    s = find_stmt(fn, lambda s: isinstance(s, ast.If) and "len(names)" in norm(s.test))
+    return replace_node(mod, s, "if index < len(names) and names[index] in kwargs:\n            return kwargs[names[index]]\n        if index < len(names):\n            return None")
